@@ -1031,6 +1031,21 @@ func (se *SpecEnv) evalCall(x *ECall) T {
 			se.fail("fresh() outside a postcondition")
 		}
 		return T{S: "(> (root " + a + ") " + se.old.heapTop + ")", So: "Bool"}
+	case "iterfresh":
+		// iterfresh(x): x was allocated during the current iteration of the enclosing loop (so nothing
+		// handed out in an earlier iteration can alias it)
+		v := arg(0)
+		a := v.S
+		switch v.So {
+		case "Slice":
+			a = "(sarr " + a + ")"
+		case "Iface":
+			a = "(ipay " + a + ")"
+		}
+		if se.st == nil || se.st.iterTop == "" {
+			se.fail("iterfresh() outside a loop")
+		}
+		return T{S: "(> (root " + a + ") " + se.st.iterTop + ")", So: "Bool"}
 	case "allocated":
 		v := arg(0)
 		a := v.S
